@@ -115,6 +115,7 @@ impl BusListener {
     // verified in the leaf unit against the plain filter semantics (there the filters and ids are the real types; here they are
     // opaque, so the semantics is an uninterpreted predicate); matches_object needs flags_ok -- discharged from bl_inv
     pub uninterp spec fn some_filter_matches_object(&self, object: ObjectId) -> bool;
+    pub uninterp spec fn has_any_object_filter(&self) -> bool;
     pub uninterp spec fn some_filter_matches_service(&self, service: ServiceId) -> bool;
     //@fn-from broker_bus_listener broker/src/bus_listener.rs BusListener::matches_object
     //@fn-from broker_bus_listener broker/src/bus_listener.rs BusListener::matches_service
